@@ -441,6 +441,9 @@ pub struct ConnectPlan {
     /// The connection is accepted, but its set-up on the server side (what
     /// a TLS handshake would be) fails: the accept future resolves to `Err`.
     pub fail_setup: bool,
+    /// The peer is gone again before the server accepts: `poll_accept`
+    /// itself reports an error (ECONNABORTED) for this attempt.
+    pub accept_error: bool,
     pub client_cfg: PipeCfg,
     pub server_cfg: PipeCfg,
 }
@@ -451,6 +454,7 @@ impl Default for ConnectPlan {
             delay_ms: 0,
             refuse: false,
             fail_setup: false,
+            accept_error: false,
             client_cfg: PipeCfg::default(),
             server_cfg: PipeCfg::default(),
         }
@@ -463,6 +467,7 @@ pub struct Accepted {
     pub peer: SocketAddr,
     pub index: usize,
     pub fail_setup: bool,
+    pub accept_error: bool,
 }
 
 struct ListenerInner {
@@ -580,6 +585,7 @@ impl SimConnector {
                 peer: self.client_addr,
                 index,
                 fail_setup: plan.fail_setup,
+                accept_error: plan.accept_error,
             });
             g.waker.take()
         };
@@ -1038,6 +1044,11 @@ impl domain::net::server::sock::AsyncAccept for SimListener {
     fn poll_accept(&self, cx: &mut Context<'_>) -> Poll<io::Result<(Self::Future, SocketAddr)>> {
         match self.poll_accept_sim(cx) {
             Poll::Pending => Poll::Pending,
+            Poll::Ready(Some(a)) if a.accept_error => {
+                ev!("net {} accept() fails for connection #{} from {} (aborted by the peer)", self.name, a.index, a.peer);
+                sim::stat("fault.accept_error");
+                Poll::Ready(Err(io::Error::new(io::ErrorKind::ConnectionAborted, "simulated ECONNABORTED")))
+            }
             Poll::Ready(Some(a)) => {
                 ev!("net {} accepted connection #{} from {}{}", self.name, a.index, a.peer, if a.fail_setup { " (set-up fails)" } else { "" });
                 if a.fail_setup {
